@@ -19,6 +19,18 @@ PROPS = {
                  "the MTU is advertised, not enforced by the code: payload <= MTU is the generator's bound"],
         assumptions=["service names of at most 8 bytes not ending in NUL", "no name-hash collision"],
     ),
+    "C06": dict(
+        lean_props="Receptor.Props.C06",
+        engines=[dict(engine="flood", pkg=NETC, test="TestVerifFlood", n_quick=400, n_thorough=4000)],
+        corr_ops={"flood": ["run"]},
+        facts=["route_stale_epoch", "route_stale_seq", "route_dedup_first", "route_relay_call", "route_self_filter",
+               "route_forwarder_rewrite", "route_seen_atomic"],
+        trusted=["Go map/RWMutex semantics: the seen-table test-and-set is one critical section (fact route_seen_atomic); "
+                 "concurrent deliveries of one update over two links are serialised by that lock (modelled as sequential steps)",
+                 "expiry of the seen table is not modelled: at-most-once per UpdateID is proved within the dedup window, "
+                 "and per (origin, epoch, sequence) for genuine updates by info_monotone/stale_is_noop"],
+        assumptions=["suspected-duplicate notices bypass the epoch test by design: for them at-most-once holds per UpdateID only"],
+    ),
     "C10": dict(
         lean_props="Receptor.Props.C10",
         engines=[dict(engine="pkt", pkg=NETC, test="TestVerifPkt", n_quick=400, n_thorough=3000)],
